@@ -41,4 +41,66 @@ theorem route_pass_iff (path query pre resp : Str) (proj : List ProjItem) (sel :
   simp only [route, hq, hp]
   by_cases h : resp = cs!"das" ∨ hasCall proj sel = false <;> simp [h]
 
+/-! ### `is_call`
+
+  The two regexp calls of `is_call` are opaque inputs of the block: `@function_match` stands for
+  `FUNCTION.match(selection)` and is bound to the model's `functionMatch` (None, or a match object given by its
+  groups 0, 1, 2); `@relop_search` stands for `RELOP.search(match.group(1))` and is bound to the model's `relopSearch`
+  of group 1 (None, or some match object).  That the argument the source passes to `RELOP.search` is group 1 — the
+  name before the first parenthesis — is `src_is_call_relop_arg_eq`.  When `FUNCTION` does not match, the source does
+  not evaluate the second call (`and` short-circuits): `@relop_search` is then arbitrary. -/
+
+/-- `FUNCTION.match(s)` as MiniPy sees it -/
+def fmatchVal (s : Str) : MiniPy.Val :=
+  match functionMatch s with
+  | some (name, args) => .matchObj [codesOf (name ++ '(' :: args ++ [')']), codesOf name, codesOf args]
+  | none => .none
+
+/-- `RELOP.search(text)` as MiniPy sees it: None, or a match object (whose groups `g` the block never reads) -/
+def rsearchVal (g : List (List Nat)) (text : Str) : MiniPy.Val :=
+  if relopSearch text then .matchObj g else .none
+
+/-- what `@relop_search` is bound to for the selection `s` -/
+def rsearchOf (g : List (List Nat)) (junk : MiniPy.Val) (s : Str) : MiniPy.Val :=
+  match functionMatch s with
+  | some (name, _) => rsearchVal g name
+  | none => junk
+
+/-- the argument of `RELOP.search` in the source is group 1 of the FUNCTION match: the model's `name` -/
+theorem src_is_call_relop_arg_eq (s name args : Str) (h : functionMatch s = some (name, args)) :
+    runItem [("selection", .str (codesOf s)), ("@function_match", fmatchVal s)] Gen.src_is_call_relop_arg "@arg"
+      = .ok (.str (codesOf name)) := by
+  unfold Gen.src_is_call_relop_arg fmatchVal
+  rw [h]
+  simp (decide := true) only [runItem, exec, eval, bind_ok', lookup_cons_eq, lookup_cons_ne, lookup_setVar_eq,
+    lookup_setVar_ne, List.getElem?_cons_succ, List.getElem?_cons_zero]
+
+/-- … and without a FUNCTION match the source cannot reach it: `None.group` raises -/
+theorem src_is_call_relop_arg_none (s : Str) (h : functionMatch s = none) :
+    runItem [("selection", .str (codesOf s)), ("@function_match", fmatchVal s)] Gen.src_is_call_relop_arg "@arg"
+      = .error (.raised "AttributeError") := by
+  unfold Gen.src_is_call_relop_arg fmatchVal
+  rw [h]
+  simp (decide := true) only [runItem, exec, eval, bind_ok', bind_error', lookup_cons_eq, lookup_cons_ne,
+    lookup_setVar_eq, lookup_setVar_ne]
+
+theorem truthy_matchObj (g : List (List Nat)) : truthy (.matchObj g) = true := rfl
+
+/-- the whole body returns the model's `isCallSel` -/
+theorem src_is_call_eq (s : Str) (g : List (List Nat)) (junk : MiniPy.Val) :
+    runItem [("selection", .str (codesOf s)), ("@function_match", fmatchVal s), ("@relop_search", rsearchOf g junk s)]
+        Gen.src_is_call "@ret"
+      = .ok (.bool (isCallSel s)) := by
+  unfold Gen.src_is_call fmatchVal rsearchOf isCallSel rsearchVal
+  cases h : functionMatch s with
+  | none =>
+    simp (decide := true) only [runItem, exec, eval, bind_ok', lookup_cons_eq, lookup_cons_ne, lookup_setVar_eq,
+      lookup_setVar_ne, truthy_none, truthy_bool', if_false, Bool.false_eq_true]
+  | some na =>
+    obtain ⟨name, args⟩ := na
+    cases hr : relopSearch name <;>
+      simp (decide := true) only [runItem, exec, eval, bind_ok', lookup_cons_eq, lookup_cons_ne, lookup_setVar_eq,
+        lookup_setVar_ne, hr, truthy_none, truthy_bool', truthy_matchObj, if_true, if_false, Bool.false_eq_true,
+        Bool.not_true, Bool.not_false]
+
 end Pydap
